@@ -34,6 +34,8 @@ RULE = (
     "non-trivial = >= 2 atoms with different radial grids, or an aim factor different from 1 somewhere, or a classmethod "
     "path with >= 2 atoms, or (onepercent) >= 2 atoms. distinct = distinct descriptor"
 )
+RULE = RULE + " " + 'constructors: a third of the list/dict-style cases contain two atoms of the same element (and preset/sector tables) with different radial grids of equal size.'
+
 ASSUMPTIONS = [
     "AtomGrid (C05), OneDGrid/UniformInteger/PowerRTransform (C01, C03, C04) and the Lebedev tables (C02, C12) are the trusted base: the hand-built side uses them",
     "the table _DEFAULT_POWER_RTRANSFORM_PARAMS (rmin, rmax in angstrom, npt) is data; angstrom->bohr is scipy.constants' CODATA value (cross-checked against 1.8897261 to 1e-7)",
